@@ -344,7 +344,7 @@ def handle : List String → String
   | ["order", variant, seed] =>
     if ["backup", "prune", "copy", "tiny", "tinyfail", "backupfail", "bigbackup"].contains variant ∧ seed.toNat?.isSome then "ok" else "bad-op"
   | ["repo", variant, seed] =>
-    if ["backup", "prune-fast", "prune-copy", "prune-all", "copy", "merge"].contains variant ∧ seed.toNat?.isSome then "ok" else "bad-op"
+    if ["backup", "prune-fast", "prune-copy", "prune-all", "copy", "merge", "rewrite", "repair-snapshots"].contains variant ∧ seed.toNat?.isSome then "ok" else "bad-op"
   | ["repair", variant, seed] =>
     if ["all", "some", "none", "all-readall", "some-readall", "none-readall", "badhint", "fullpack", "fullpack-readall"].contains variant ∧ seed.toNat?.isSome
     then "ok" else "bad-op"
